@@ -108,8 +108,8 @@ func genCase(r *h.Run, phase string, idx int) caseT {
 	c.Cfg.Mode = modes[(idx/2)%3]
 	switch rng.Intn(4) {
 	case 0:
-		c.Cfg.SndBuf = 4096
-		c.Cfg.RcvBuf = 4096
+		c.Cfg.SndBuf = 8192
+		c.Cfg.RcvBuf = 8192
 	case 1:
 		c.Cfg.SndBuf = 16384
 	}
@@ -117,7 +117,7 @@ func genCase(r *h.Run, phase string, idx int) caseT {
 	nconn := 1 + rng.Intn(2)
 	budget := 6 << 20
 	if c.Cfg.RcvBuf > 0 {
-		budget = 600000 // tiny TCP windows move ~100 KiB/s on loopback
+		budget = 100000 // tiny TCP windows move a few KiB/s on loopback
 	}
 	for k := 0; k < nconn; k++ {
 		var cs outb.ConnSpec
